@@ -44,8 +44,8 @@ var c05Classes = []string{"valid-program", "token-mutation", "line-deletion", "t
 func (c05) Thresholds(tier string) map[string]int64 {
 	th := map[string]int64{
 		"inputs":                          30000,
-		"accepted":                        5000,
-		"rejected":                        15000,
+		"accepted":                        3000,
+		"rejected":                        10000,
 		"oracle:lexer-error":              3000,
 		"oracle:parser-error":             8000,
 		"oracle:trailing-input":           3,
